@@ -155,6 +155,9 @@ class Module:
             if isinstance(st, ast.Assign) and len(st.targets) == 1 \
                     and isinstance(st.targets[0], ast.Name):
                 self.constants[st.targets[0].id] = st.value
+            elif isinstance(st, ast.AnnAssign) and st.value is not None \
+                    and isinstance(st.target, ast.Name):
+                self.constants[st.target.id] = st.value
         self._collect_imports(self.tree, self.imports)
         self._index_body(self.tree.body, "", None, None)
 
